@@ -33,7 +33,8 @@ class squared_property:
     def __get__(self, instance, owner=None) -> float:
         if instance is None:
             return self  # type: ignore[return-value]
-        return getattr(instance, self._name_not_squared)**2
+        value = getattr(instance, self._name_not_squared)
+        return value * value  # unlike value**2 this gives inf, not OverflowError
 
     def __set__(self, instance, value: float):
         setattr(instance, self._name_not_squared, value**0.5)
